@@ -69,7 +69,7 @@ func (m *jsonMarshaler) MarshalJSON() ([]byte, error) {
 	}
 
 	// Google V1 message?
-	if msg, isV1 := m.msg.(protov1.Message); isV1 {
+	if msg, isV1 := m.msg.(protov1.Message); isV1 && MsgType(m.msg) != MessageTypeGogo {
 		jm := jsonpb.Marshaler{
 			Indent:       m.opts.indent,
 			EnumsAsInts:  m.opts.useEnumNumbers,
@@ -145,7 +145,7 @@ func (m *jsonUnmarshaler) UnmarshalJSON(data []byte) error {
 	}
 
 	// Google V1 message?
-	if msg, isV1 := m.msg.(protov1.Message); isV1 {
+	if msg, isV1 := m.msg.(protov1.Message); isV1 && MsgType(m.msg) != MessageTypeGogo {
 		jm := jsonpb.Unmarshaler{
 			AllowUnknownFields: m.opts.allowUnknownFields,
 		}
